@@ -2,10 +2,11 @@ from pyvc.cbase import Registry
 
 
 def build_registry():
-    from . import externs, expect, spawnbase, screen
+    from . import externs, expect, spawnbase, screen, ansi
     reg = Registry()
     externs.register(reg)
     spawnbase.register(reg)
     expect.register(reg)
     screen.register(reg)
+    ansi.register(reg)
     return reg
